@@ -6,6 +6,7 @@ mod c06;
 mod cache;
 mod crash;
 mod dedup;
+mod fslimit;
 mod recon;
 mod sess;
 mod sf;
@@ -64,6 +65,7 @@ fn main() {
             "upl" => upl::run(&toks[1..]),
             "sess" => sess::run(&toks[1..]),
             "c07" => xorb::run_c07(&toks[1..]),
+            "c07big" => xorb::run_c07big(&toks[1..]),
             "c07prep" => xorb::prep_c07(&toks[1..]),
             "bg4" => xorb::run_bg4(&toks[1..]),
             "c08" | "c08z" => xorb::run_c08(&toks[1..]),
